@@ -15,6 +15,7 @@ GENERATORS = {
     "cvrptw": ("rl4co.envs.routing.cvrptw.generator", "CVRPTWGenerator"), "mtvrp": ("rl4co.envs.routing.mtvrp.generator", "MTVRPGenerator"),
     "fjsp": ("rl4co.envs.scheduling.fjsp.generator", "FJSPGenerator"), "jssp": ("rl4co.envs.scheduling.jssp.generator", "JSSPGenerator"),
     "mdcpdp": ("rl4co.envs.routing.mdcpdp.generator", "MDCPDPGenerator"),
+    "dpp": ("rl4co.envs.eda.dpp.generator", "DPPGenerator"), "mdpp": ("rl4co.envs.eda.mdpp.generator", "MDPPGenerator"),
 }
 
 
@@ -73,7 +74,11 @@ def run_gen(p):
         size = k.get("size")
         if size is None:
             size = a.pop()
-        return feed.take("randint", tuple(int(x) for x in size), k.get("dtype") or torch.int64)
+        lo, hi = (0, a[0]) if len(a) == 1 else (a[0], a[1])
+        t = feed.take("randint", tuple(int(x) for x in size), k.get("dtype") or torch.int64)
+        if bool((t < lo).any()) or bool((t >= hi).any()):
+            raise Mismatch(f"fed randint values {t.flatten().tolist()} lie outside the sampler's support [{lo}, {hi})")
+        return t
 
     def randperm(n, **k):
         return feed.take("randperm", (int(n),), torch.int64)
@@ -102,7 +107,11 @@ def run_gen(p):
     out = {}
     try:
         mod, cls = GENERATORS[p["name"]]
-        g = getattr(importlib.import_module(mod), cls)(**p["params"])
+        if p["name"] in ("dpp", "mdpp"):  # constructors need downloaded chip data that _generate does not use
+            g = object.__new__(getattr(importlib.import_module(mod), cls))
+            g.__dict__.update(p["params"])
+        else:
+            g = getattr(importlib.import_module(mod), cls)(**p["params"])
         try:
             td = g(p["B"]) if p["name"] == "mcp" else g([p["B"]])
         except Mismatch as e:
